@@ -454,3 +454,104 @@ Definition resp_eqb (a b : resp) : bool :=
   | ROk, ROk | RDenied, RDenied | RBad, RBad | RErr, RErr => true
   | _, _ => false
   end.
+
+(* ------------------------------------------------------------------ the SECOND role-certificate path:
+   /v1/refreshRoleRequestingCert (roleRequestingCert.go refreshRoleRequestingCertGenHandler,
+   parseRefreshRoleCertGenParams): renewal of a role-requesting certificate by its holder.
+
+     checkAuth(w, r, AuthTypeIPCertificate)         [authenticate_ip refresh_required; ip_cert_accepted: the
+                                                     CN must be an automation user — 403 otherwise, 500 if
+                                                     the directory fails]
+     r.Method != "POST" -> 405
+     identityName := authData.Username               the CN of the presented certificate — the form is
+                                                     NOT consulted: [r_target] (the form's "identity",
+                                                     body or query string; [] = absent or empty) is an
+                                                     input of the request that this function never reads
+     identityName == "" -> 400; isAutomationUser(identityName): error -> 500, no -> 400
+     pubkey malformed / weak -> 400                  [r_params_ok]
+     r.TLS == nil || no verified chain -> 400        "MUST only come from certificate"
+     certificate for identityName, netblocks of the presented certificate; nothing is stored.
+
+   On this path [r_dir_target] is the directory's answer about the identity the handler looks up, i.e.
+   about the certificate's CN.  The third component of the result is the CN of the issued certificate. *)
+
+Definition refresh_required : N := bIPCert.
+
+(* checkAuth with the IP-restricted certificate as a credential: [IPCert u] is a verified chain to the
+   role CA for CN u, presented from inside the certificate's netblocks (C11 is about that test) *)
+Definition authenticate_ip (required : N) (cr : cred) : option (name * N) :=
+  match cr with
+  | IPCert u => if hasb required bIPCert && negb (empty u) then Some (u, bIPCert) else None
+  | x => authenticate required x
+  end.
+
+(* app.go getUsernameIfIPRestricted, inside checkAuth: the CN of an IP-restricted certificate must itself be an
+   automation user (isAutomationUser: error -> 500, no -> 403 "Bad username for ip restricted cert") — a
+   certificate whose CN is not (or no longer) a configured automation identity is no credential *)
+Definition ip_cert_accepted (c : cfg) (cr : cred) (dir : answer) : option bool :=
+  match cr with
+  | IPCert u => is_automation_user c u dir
+  | _ => Some true
+  end.
+
+Definition from_ip_certificate (cr : cred) : bool := match cr with IPCert _ => true | _ => false end.
+
+Definition refresh_step (c : cfg) (s : store) (r : request) : store * resp * option name :=
+  match authenticate_ip refresh_required (resolve c (r_cred r)) with
+  | None => (s, RDenied, None)
+  | Some (actor, _) =>
+      match ip_cert_accepted c (resolve c (r_cred r)) (r_dir_target r) with
+      | None => (s, RErr, None)
+      | Some false => (s, RDenied, None)
+      | Some true =>
+      if negb (r_post r) then (s, RBad, None)
+      else if empty actor then (s, RBad, None)
+      else match is_automation_user c actor (r_dir_target r) with
+           | None => (s, RErr, None)
+           | Some false => (s, RBad, None)
+           | Some true =>
+               if negb (r_params_ok r) then (s, RBad, None)
+               else if negb (from_ip_certificate (resolve c (r_cred r))) then (s, RBad, None)
+               else (s, ROk, Some actor)
+           end
+      end
+  end.
+
+(* NOT the server's code (contrast only): the identity is taken from the form when the form has one,
+   and only checked to be an automation identity — nothing ties it to the presented certificate *)
+Definition refresh_honours_form (c : cfg) (s : store) (r : request) : store * resp * option name :=
+  match authenticate_ip refresh_required (resolve c (r_cred r)) with
+  | None => (s, RDenied, None)
+  | Some (actor, _) =>
+      if negb (memn actor (automation_users c)) then (s, RDenied, None)   (* the gate's test, for holders configured by name *)
+      else if negb (r_post r) then (s, RBad, None)
+      else let id := if empty (r_target r) then actor else r_target r in
+           if empty id then (s, RBad, None)
+           else match is_automation_user c id (r_dir_target r) with
+                | None => (s, RErr, None)
+                | Some false => (s, RBad, None)
+                | Some true =>
+                    if negb (r_params_ok r) then (s, RBad, None)
+                    else if negb (from_ip_certificate (resolve c (r_cred r))) then (s, RBad, None)
+                    else (s, ROk, Some id)
+                end
+  end.
+
+(* the two endpoints that issue role-requesting certificates, with the identity (CN) of the issued
+   certificate: the minting endpoint names the requested identity (rvalue.Role = roleName) *)
+Inductive rc_path := ViaMint | ViaRefresh.
+
+Definition rolecert_issue (p : rc_path) (c : cfg) (s : store) (r : request) : store * resp * option name :=
+  match p with
+  | ViaMint =>
+      let '(s', x) := step c s r in
+      (s', x, if resp_eqb x ROk then Some (r_target r) else None)
+  | ViaRefresh => refresh_step c s r
+  end.
+
+Definition oname_eqb (a b : option name) : bool :=
+  match a, b with
+  | None, None => true
+  | Some x, Some y => bs_eqb x y
+  | _, _ => false
+  end.
